@@ -160,6 +160,35 @@ def run(ctx):
                     continue
                 if not (b.M[0] <= fit_i.M_ <= b.M[1]) or (tg is None and not (b.tau[0] <= fit_i.tau_ <= b.tau[1])) or (tg is not None and fit_i.tau_ != tg):
                     bad("fitted M / tau lie outside the configured bounds (integer-typed data)", inp_i, dict(M=float(fit_i.M_), tau=float(fit_i.tau_)))
+    # ---------------- data whose unconstrained least-squares optimum lies OUTSIDE the bounds (net injection / noise around a small
+    # negative offset): the fitted M must still be inside the configured bounds - the default bounds (0, inf) included - and with tau
+    # supplied it is the clipped closed-form optimum
+    for k in range(6 if ctx.quick else 40):
+        cname = list(crv)[k % len(crv)]
+        rf = crv[cname]
+        tau = float(dom.loguniform(rng, 1.0, 1e4))
+        tt = np.linspace(tau / 50, 2 * tau, int(rng.integers(50, 90)))
+        r = np.asarray(rf(tt / tau), float)
+        y = -float(rng.uniform(50, 500)) * r + rng.normal(0, 1.0, len(tt))       # optimum M < 0
+        for how, b in (("default bounds", None), ("explicit default-equal bounds", Bounds(M=(0, np.inf), tau=(1e-10, np.inf))), ("finite bounds", Bounds(M=(1.5, 900.5), tau=(tau / 20, tau * 20)))):
+            for tg in (None, tau):
+                fo = ForecasterOnePhase(rf) if b is None else ForecasterOnePhase(rf, b)
+                bb = fo.bounds
+                ev += 1
+                inp_n = dict(curve=cname, tau=tau, samples=len(tt), bounds=how, tau_given=tg, data="negative multiple of the curve plus unit noise")
+                try:
+                    with warnings.catch_warnings():
+                        warnings.simplefilter("ignore")
+                        fo.fit(tt, y) if tg is None else fo.fit(tt, y, tau=tg)
+                except Exception as e:  # noqa: BLE001
+                    bad("fit raises on admissible data", inp_n, repr(e)[:200])
+                    continue
+                if not (bb.M[0] <= fo.M_ <= bb.M[1]) or (tg is None and not (bb.tau[0] <= fo.tau_ <= bb.tau[1])):
+                    bad("fitted M / tau lie outside the configured bounds", dict(**inp_n, M_bounds=list(bb.M), tau_bounds=list(bb.tau)), dict(M=float(fo.M_), tau=float(fo.tau_)))
+                elif tg is not None:
+                    mstar = min(max(float(r @ y / (r @ r)), bb.M[0]), bb.M[1])
+                    if not dom.relclose(float(fo.M_), mstar, 1e-4, 1e-4 * max(1.0, abs(bb.M[0]))):
+                        bad("with tau supplied, M is not the bounded least-squares optimum (clipped sum(r y)/sum(r r))", dict(**inp_n, bounds_M=list(bb.M)), dict(M=float(fo.M_), optimum=mstar))
     # ---------------- Bounds validation and guess regularisation
     for k in range(60 if ctx.quick else 1500):
         lo, hi = sorted(rng.uniform(-5, 5, 2))
